@@ -88,6 +88,9 @@ Allowed ==
        /\ e.first # "PANIC" /\ e.second # "PANIC"
        \* (judged only if the scenario ran at all, i.e. the first lookup went upstream)
        /\ e.asked1 => ~(e.second = "neg" /\ ~e.asked2)
+       \* ... and a lookup that failed goes upstream again when repeated at once: a failure that comes
+       \* back without asking was served from the cache, whatever it looks like
+       /\ (e.asked1 /\ e.first = "other") => e.asked2
        /\ store' = store
     \* the caller asked to flush the cache
     \/ /\ e.ev = "clear"
